@@ -613,7 +613,7 @@ class Normal(_AbstractDistribution):
 
             return (
                 self.covariance_cholesky
-                @ _numpy.random.default_rng().normal(size=(self.dimensions, repeat))
+                @ rng.normal(size=(self.dimensions, repeat))
                 + self.means
             )
 
@@ -1320,7 +1320,7 @@ class Mixture(_AbstractDistribution):
 
     def generate(self, repeat=1, rng=_numpy.random.default_rng()) -> _numpy.ndarray:
 
-        generate_from = _numpy.random.choice(
+        generate_from = rng.choice(
             _numpy.arange(len(self.probabilities)),
             size=repeat,
             p=self.probabilities,
@@ -1330,7 +1330,7 @@ class Mixture(_AbstractDistribution):
         for _index, _repeats in _numpy.vstack(
             _numpy.unique(generate_from, return_counts=True)
         ).T:
-            samples.append(self.distributions[_index].generate(_repeats))
+            samples.append(self.distributions[_index].generate(_repeats, rng=rng))
 
         return _numpy.hstack(samples)
 
